@@ -12,6 +12,18 @@ checks = {
  "C15": dict(cat="model_checking", tech="bounded-exhaustive enumeration against the reference model run right-to-left",
    text="Same enumeration as C01 compiled with RightToLeft (alone and with i, m, s): scan positions descend from the start offset, concatenations run last-to-first, lookaheads run rightwards in the model; every point compared.",
    note="Same trusted base and bounds as C01.", ref="4 C15"),
+ "C02": dict(cat="exploration", tech="bounded-exhaustive enumeration; relation between all public entry points over the FindNextMatch chain",
+   text="For every enumerated pattern/option set and every byte-string input up to the bound (multi-byte, U+FFFD, invalid-byte profiles), the FindRunesMatch/FindNextMatch chain is the reference and every other entry point (bool calls, string chain, StartingAt variants at every offset, find-all index calls for n in {-1,0,1,2,3}, 19 adapter methods, Replace/ReplaceFunc/Split) must report the same matches and captures, up to the byte/rune map computed by an independent utf8 walk.",
+   note="No reference model: the oracle is agreement between independent code paths of the implementation; the chain itself is validated by C01/C03/C07. Text-valued adapter methods are only checked for match count here (their bytes are C06's business).", ref="4 C02"),
+ "C05": dict(cat="exploration", tech="bounded-exhaustive differential: normal compile vs compile with the listed rewrites switched off (verif hook), two legs",
+   text="Every enumerated pattern is compiled twice, normally and with the six rewrites of the property switched off through the verif-only switches; on every input and start offset the naive scan of both programs must agree (meaning of the rewritten tree) and the public find call of the normal compile must agree with the un-rewritten baseline (bump-along marker). A disagreement is bisected to the single rewrite that causes it.",
+   note="Trusted: the hook guards in syntax/tree.go switch off exactly the named rewrites. Other reductions are common to both compiles. One recorded finding (auto-atomic before \\B) is enumerated member by member (NWB).", ref="4 C05"),
+ "C07": dict(cat="model_checking", tech="bounded-exhaustive enumeration; every FindNextMatch chain explored to its end with invariants and independent recomputation of every step",
+   text="For every enumerated pattern (weighted to nullable / \\G / lookbehind shapes), both directions and every input, the whole FindNextMatch chain is explored to its end: strict progress, disjointness, no repeated empty match, at most len+1 matches; every element and the terminating nil equal an independent naive search from the previous end with \\G bound there; find-all calls equal the chain minus adjacent empties truncated to n.",
+   note="Trusted: hook VerifNaiveScan(origin, scanpos). Bounds as printed.", ref="4 C07"),
+ "C08": dict(cat="exploration", tech="bounded-exhaustive enumeration with structural invariants and an independent byte-offset walk on every returned match",
+   text="Every match returned by the string chain, the rune chain and the StartingAt calls for every enumerated (pattern, options, byte-string input) is checked: captures inside the input, group 0 = the match, embedded capture = last capture, String()/Runes() = addressed slice, ByteRange() = offsets from an independent utf8.DecodeRuneInString walk (invalid byte = 1 rune = 1 byte), consistent with find-all and adapter byte indexes.",
+   note="Bounds as printed; inputs include multi-byte runes, literal U+FFFD, 0xFF and a truncated sequence.", ref="4 C08"),
  "C03": dict(cat="exploration", tech="bounded-exhaustive differential: accelerated scan vs naive scan of the same compiled program at every start offset",
    text="For every enumerated pattern (families chosen per search mode; code-gen analysis on/off; both directions) and every input and start offset, the public rune and string entry points must return exactly what the verif-only naive scan (attempt at every position, no filter, no candidate search, no cut-off) returns for the same compiled program.",
    note="Trusted: the hook VerifNaiveScan and the interpreter itself (it is common to both sides; its meaning is C01's business). Bounds as printed in the evidence.", ref="4 C03"),
